@@ -47,3 +47,59 @@ Proof.
 Qed.
 Print Assumptions use_is_value.
 Print Assumptions assigned_value.
+
+(* ---- the assignment line: whatever its arguments, it changes the variable table and the log, nothing else; a name
+   other than the assigned one keeps its value; an assignment restricted to other formats changes nothing but the log ---- *)
+Require Import Eqd.
+Lemma eqd_set_ivars a b f : a ~~ b -> a <| ivars ::= f |> ~~ b <| ivars ::= f |>.
+Proof. unfold eqd. intro H. transitivity (nd a <| ivars ::= f |>); [destruct a; reflexivity|]. rewrite H. destruct b; reflexivity. Qed.
+Theorem def_var_changes_only_the_table s : exists f, macro_def_var s ~~ s <| ivars ::= f |>.
+Proof.
+  unfold macro_def_var.
+  pose proof (parse_opts_eqd specOptDef (args s) s) as E1. destruct (parse_opts specOptDef (args s) s) as [o s1]. cbn [snd] in E1.
+  assert (Hid : forall x, x ~~ s -> exists f, x ~~ s <| ivars ::= f |>).
+  { intros x Hx. exists (fun v => v). eapply eqd_trans; [exact Hx|]. destruct s; reflexivity. }
+  destruct (po_args o) as [|n vals].
+  { apply Hid. destruct (process s1); [eapply eqd_trans; [apply err_eqd|exact E1]|exact E1]. }
+  set (r := match opt "f" o with Some f => _ | None => (false, s1) end).
+  assert (E2 : snd r ~~ s).
+  { unfold r. destruct (opt "f" o) as [f|]; [|exact E1].
+    pose proof (formats_of_eqd f s1) as H. destruct (formats_of f s1) as [fs s']. cbn [snd] in *.
+    destruct (process s'); cbn [snd]; [eapply eqd_trans; [apply check_formats_eqd|]|]; eapply eqd_trans; eauto. }
+  destruct r as [skip s2]. cbn [snd] in E2.
+  destruct skip; [apply Hid; exact E2|].
+  pose proof (inlines_text_eqd n s2) as E3. destruct (inlines_text n s2) as [name s3]. cbn [snd] in E3.
+  pose proof (args_text_eqd vals s3) as E4. destruct (args_text vals s3) as [v s4]. cbn [snd] in E4.
+  exists (assoc_set name v). apply eqd_set_ivars. eapply eqd_trans; [exact E4|]. eapply eqd_trans; [exact E3|exact E2].
+Qed.
+Theorem def_var_keeps_other_names s o s1 n vals name s3 other :
+  parse_opts specOptDef (args s) s = (o, s1) -> po_args o = n :: vals -> opt "f" o = None ->
+  inlines_text n s1 = (name, s3) -> str_eqb other name = false ->
+  assoc other (ivars (macro_def_var s)) = assoc other (ivars s).
+Proof.
+  intros Ho Ha Hf Hn Hne. unfold macro_def_var. rewrite Ho, Ha, Hf, Hn.
+  pose proof (args_text_eqd vals s3) as E4. destruct (args_text vals s3) as [v s4]. cbn [snd] in E4.
+  change (ivars (s4 <| ivars ::= assoc_set name v |>)) with (assoc_set name v (ivars s4)).
+  unfold assoc_set. cbn [assoc]. rewrite Hne.
+  pose proof (inlines_text_eqd n s1) as E3. rewrite Hn in E3. cbn [snd] in E3.
+  pose proof (parse_opts_eqd specOptDef (args s) s) as E1. rewrite Ho in E1. cbn [snd] in E1.
+  assert (E : s4 ~~ s) by (eapply eqd_trans; [exact E4|]; eapply eqd_trans; eauto).
+  apply (f_equal ivars) in E. cbn in E. rewrite E. reflexivity.
+Qed.
+Theorem def_var_for_other_formats_is_absent s o s1 n vals f fs s' :
+  parse_opts specOptDef (args s) s = (o, s1) -> po_args o = n :: vals -> opt "f" o = Some f ->
+  formats_of f s1 = (fs, s') -> existsb (str_eqb (format s)) fs = false ->
+  macro_def_var s ~~ s.
+Proof.
+  intros Ho Ha Hf Hfs Hno. unfold macro_def_var. rewrite Ho, Ha, Hf, Hfs.
+  pose proof (parse_opts_eqd specOptDef (args s) s) as E1. rewrite Ho in E1. cbn [snd] in E1.
+  pose proof (formats_of_eqd f s1) as E2. rewrite Hfs in E2. cbn [snd] in E2.
+  set (s'' := if process s' then check_formats fs s' else s').
+  assert (E3 : s'' ~~ s) by (unfold s''; destruct (process s'); [eapply eqd_trans; [apply check_formats_eqd|]|]; eapply eqd_trans; eauto).
+  assert (Hsk : not_export_format fs s'' = true).
+  { unfold not_export_format. apply (f_equal format) in E3. cbn in E3. rewrite E3, Hno. reflexivity. }
+  rewrite Hsk. exact E3.
+Qed.
+Print Assumptions def_var_changes_only_the_table.
+Print Assumptions def_var_keeps_other_names.
+Print Assumptions def_var_for_other_formats_is_absent.
